@@ -208,7 +208,7 @@ func HarnessC09Publish() {
 // contain exactly what the extraction configs name.
 //
 //gosym:harness panics
-//gosym:cover from-secret-key from-value from-field-path extract-error
+//gosym:cover from-secret-key from-value from-field-path extract-error config-without-source
 func HarnessC09Extract() {
 	cd := composed.New()
 	cd.SetAPIVersion("example.org/v1")
@@ -252,17 +252,45 @@ func HarnessC09Extract() {
 		zz.Cover("extract-error")
 		return
 	}
-	// every output key is the name of some config, with the value that config selects
-	for k, v := range out {
-		named := false
+	// every output key is the name of some config whose source exists: a
+	// secret key the composed resource's connection details lack, or a field
+	// path the composed resource lacks, produces nothing
+	produces := func(c ConnectionDetailExtractConfig) bool {
+		switch c.Type {
+		case ConnectionDetailTypeFromValue:
+			return c.Value != nil
+		case ConnectionDetailTypeFromConnectionSecretKey:
+			for _, dk := range dkeys {
+				if c.FromConnectionSecretKey != nil && dk == *c.FromConnectionSecretKey {
+					return true
+				}
+			}
+		case ConnectionDetailTypeFromFieldPath:
+			return c.FromFieldPath != nil && (*c.FromFieldPath == "status.endpoint" || *c.FromFieldPath == "status.port")
+		}
+		return false
+	}
+	for k := range out {
+		named, sourced := false, false
 		for _, c := range cfgs {
 			if c.Name != k {
 				continue
 			}
 			named = true
-			_ = v
+			if produces(c) {
+				sourced = true
+			}
 		}
 		zz.Assert("extracted-key-is-a-configured-name", named)
+		if named && !sourced {
+			zz.Cover("missing-source")
+		}
+		zz.Assert("extracted-key-has-an-existing-source", !named || sourced)
+	}
+	for _, c := range cfgs {
+		if !produces(c) {
+			zz.Cover("config-without-source")
+		}
 	}
 	// the last config naming a key decides its value
 	for i := len(cfgs) - 1; i >= 0; i-- {
